@@ -2,7 +2,7 @@
 # tools/try_patch.sh <patch.diff> <Cxx> [<Cxx> ...] : apply a seeded change to /repo, run the checks, undo it.
 patch="$1"; shift
 cd /verif
-git -C /repo apply "$patch" || { echo "patch does not apply"; exit 9; }
+patch="$(realpath "$patch")"; git -C /repo apply "$patch" || { echo "patch does not apply"; exit 9; }
 for c in "$@"; do
   ./check "$c" --tier quick | grep -E "^(VIOLATION|KNOWN-FINDING|UNDECIDED|CHECKER-ERROR|  failed|C[0-9]+ \[)" | cut -c1-300
 done
